@@ -414,8 +414,9 @@ Section Sim.
 
   Notation astep := (SListModel.step key false).
 
-  (** Forward simulation: every operation of the domain other than sort. *)
-  Theorem sim_step a p o :
+  (** Forward simulation: every operation of the domain other than sort
+      (sort: SListPtrSortProofs.v, which uses the [Concat] case below). *)
+  Theorem sim_step_nosort a p o :
     sys_wf a -> R a p -> (forall l, o <> Sort l) ->
     match astep a o with
     | Done a' out => exists p', p_step key p o = Done p' out /\ R a' p'
@@ -629,32 +630,3 @@ Section Sim.
       + intros j Hj. rewrite hupd_other; auto. congruence.
   Qed.
 End Sim.
-
-(** Whole histories (without sort): the pointer-level model produces exactly
-    the outputs of the sequence model and ends in a related state. *)
-Section SimRun.
-  Variable key : nat -> Z.
-
-  Lemma sim_run ops : forall a p,
-    sys_wf a -> R a p -> (forall l, ~ In (Sort l) ops) ->
-    match run (SListModel.step key false) a ops, run (p_step key) p ops with
-    | (Done a' _, outs), (Done p' _, outs') => R a' p' /\ outs = outs' /\ sys_wf a'
-    | (Precond, outs), (Precond, outs') => outs = outs'
-    | _, _ => False
-    end.
-  Proof.
-    induction ops as [|o ops IH]; intros a p W HR Hns; simpl; auto.
-    pose proof (step_correct key a o W) as HC.
-    pose proof (sim_step key a p o W HR) as HS.
-    assert (Ho : forall l, o <> Sort l) by (intros l E; apply (Hns l); left; auto).
-    specialize (HS Ho).
-    destruct (SListModel.step key false a o) as [a' out| | |]; try tauto.
-    - destruct HS as (p' & -> & HR'). destruct HC as (W' & _).
-      specialize (IH a' p' W' HR' (fun l H => Hns l (or_intror H))).
-      destruct (run (SListModel.step key false) a' ops) as [[? ?| | |] outs];
-        destruct (run (p_step key) p' ops) as [[? ?| | |] outs']; try tauto.
-      + destruct IH as (? & -> & ?); auto.
-      + subst; auto.
-    - rewrite HS. auto.
-  Qed.
-End SimRun.
